@@ -164,6 +164,10 @@ class Walk:
                 return v if v[0] in ("sym", "const", "adt", "tuple", "list", "iter") else TOP
             if all(isinstance(e, dict) and ("f" in e or "dc" in e) for e in pl["p"]):
                 return ("ref", pl["l"], tuple(_freeze(e) for e in pl["p"]), bool(rv.get("mut")))
+            if pl["p"] and pl["p"][-1] == "deref" and all(isinstance(e, dict) and ("f" in e or "dc" in e) for e in pl["p"][:-1]):
+                # `&*x.f` where the field holds a pointer (`&str`, `&T`): the pointer itself
+                v = self.read_place(env, {"l": pl["l"], "p": pl["p"][:-1]})
+                return v if v[0] in ("sym", "const", "ref", "adt", "tuple", "list") else TOP
             return TOP
         if k == "cast":
             v = self.operand(env, rv["op"])
@@ -171,6 +175,12 @@ class Walk:
         if k == "discr":
             v = self.read_place(env, rv["place"])
             if v[0] == "adt" and isinstance(v[3], int):
+                # crate enums carry the variant index; the switch is on the discriminant value
+                a = self.adts.get(v[1])
+                if a is not None and a.get("kind") == "enum" and 0 <= v[3] < len(a["variants"]) and a["variants"][v[3]].get("name") == v[2]:
+                    dv = a["variants"][v[3]].get("discr")
+                    if isinstance(dv, int):
+                        return const(dv)
                 return const(v[3])
             return TOP
         if k == "un":
@@ -278,7 +288,9 @@ class Walk:
                 v = self.operand(e, t["op"])
                 if is_const(v) and isinstance(v[1], (int, bool)):
                     iv = int(v[1])
-                    tg = [tt for val, tt in zip(t["vals"], t["targets"]) if val == iv]
+                    # switch values are dumped as unsigned bit patterns: -1 of an i8 discriminant is 255
+                    same = (lambda val: val == iv) if iv >= 0 else (lambda val: val == iv or any(val == iv + (1 << k) for k in (8, 16, 32, 64, 128)))
+                    tg = [tt for val, tt in zip(t["vals"], t["targets"]) if same(val)]
                     nxt = tg[:1] if tg else [t["otherwise"]]
                 else:
                     nxt = list(dict.fromkeys(list(t["targets"]) + [t["otherwise"]]))
@@ -376,6 +388,30 @@ def std_hooks():
             if v[0] == "adt" and v[2] == "None" and nm.endswith("unwrap_or") and len(argv) > 1:
                 return w.deref_val(env, argv[1])
             return None
+        if re.search(r"cmp::Ord>?::cmp$|cmp::impls::<impl .*Ord for \w+>::(cmp|partial_cmp)$|cmp::PartialOrd>?::partial_cmp$", nm) and len(argv) == 2:
+            # comparison of two known integers: the Ordering (discriminants -1 / 0 / 1)
+            a, b = w.deref_val(env, argv[0]), w.deref_val(env, argv[1])
+            if is_const(a) and is_const(b) and isinstance(a[1], int) and isinstance(b[1], int) and not isinstance(a[1], bool) and not isinstance(b[1], bool):
+                o = ("adt", "std::cmp::Ordering", "Less", -1, ()) if a[1] < b[1] else ("adt", "std::cmp::Ordering", "Equal", 0, ()) if a[1] == b[1] else ("adt", "std::cmp::Ordering", "Greater", 1, ())
+                return adt("std::option::Option", "Some", 1, [("0", o)]) if nm.endswith("partial_cmp") else o
+            return None
+        if re.search(r"cmp::Ordering::(is_lt|is_le|is_gt|is_ge|is_eq|is_ne|reverse)$", nm) and argv:
+            v = w.deref_val(env, argv[0])
+            if v[0] == "adt" and v[1] == "std::cmp::Ordering" and isinstance(v[3], int):
+                d = v[3]
+                k = nm.rsplit("::", 1)[1]
+                if k == "reverse":
+                    return ("adt", "std::cmp::Ordering", {-1: "Greater", 0: "Equal", 1: "Less"}[d], -d, ())
+                return const(1 if {"is_lt": d < 0, "is_le": d <= 0, "is_gt": d > 0, "is_ge": d >= 0, "is_eq": d == 0, "is_ne": d != 0}[k] else 0)
+            return None
+        # a tuple-variant constructor used as a function (`.map(Self::Pattern)`)
+        if "::" in d and (t.get("res") is None or w.ctx.facts.body(t.get("res")) is None):
+            parent, _, last = d.rpartition("::")
+            a = w.adts.get(parent)
+            if a is not None and a.get("kind") == "enum":
+                for vv in a["variants"]:
+                    if vv["name"] == last and len(vv.get("fields") or []) == len(argv):
+                        return ("adt", parent, last, vv["vi"], tuple((str(i), x) for i, x in enumerate(argv)))
         if re.search(r"<impl str>::is_empty$|string::String::is_empty$", nm):
             v = w.deref_val(env, argv[0]) if argv else TOP
             if is_const(v) and isinstance(v[1], str):
